@@ -166,6 +166,16 @@ def _methods_named(index: RepoIndex, name: str) -> List[Func]:
     return tab.get(name, [])
 
 
+def _optional_result(fn: ast.FunctionDef) -> bool:
+    if fn.returns is not None and ast.unparse(fn.returns).startswith('Optional['):
+        return True
+    return any(isinstance(n, ast.Return) and (
+        n.value is None or (isinstance(n.value, ast.Constant) and n.value.value is None) or
+        (isinstance(n.value, ast.IfExp) and any(
+            isinstance(b, ast.Constant) and b.value is None
+            for b in (n.value.body, n.value.orelse)))) for n in ast.walk(fn))
+
+
 def _plain_receiver(e: ast.AST) -> bool:
     """a name other than self / cls, an attribute chain on one (`state.agent`), or a record
     built on the spot from such things (`Observation(grid, agent).masked(v)`)"""
@@ -245,7 +255,9 @@ class Inliner:
             moved = name not in _PM and f.cls is not None and \
                 len(_docless(f.node.body)) > 1 and \
                 f.module.relpath.startswith('gym_gridverse/') and \
-                pure_body_expr(f.node) is None      # (an expression is read as one)
+                (pure_body_expr(f.node) is None or _optional_result(f.node))
+            # (a method that is one expression is read as one -- unless it answers None for
+            # "nothing there": the statement-level reading splits the paths of its callers)
             if not stores_self and not moved:
                 return None
             if not isinstance(call.func.value, ast.Name) and not moved:
